@@ -8,13 +8,13 @@ From V Require Import Lib.Base Lib.Hex C23.Model C23.Proofs C23.MultiModel C23.M
 (* C23_single.  For every client program, every server script (conforming or not),
    every schedule: a GetBlock call that returns a block saw exactly the reply
    StartBatch, Block b, BatchDone and b has the requested slot and hash. *)
-Theorem C23_single : forall prog script ls s p g b,
-  run true (init prog script) ls = Some s ->
+Theorem C23_single : forall c prog script ls s p g b,
+  run true (init c prog script) ls = Some s ->
   In (GetBlock p, g, RBlock b) (rets s) ->
   g = [StartBatch; Block (Some b); BatchDone] /\ bslot b = pslot p /\ bhash b = phash p.
 Proof.
-  intros prog script ls s p g b HR HIn.
-  destruct (inv_run ls _ _ (inv_init prog script) HR) as (_ & _ & (HF & _) & _).
+  intros c prog script ls s p g b HR HIn.
+  destruct (inv_run ls _ _ (inv_init c prog script) HR) as (_ & _ & (HF & _) & _).
   rewrite Forall_forall in HF. specialize (HF _ HIn). cbn in HF.
   destruct HF as [HF|HF]; [discriminate|]. symmetry in HF.
   apply spec_single_ok in HF as [-> HM]. apply matches_spec in HM. tauto.
@@ -23,12 +23,12 @@ Print Assumptions C23_single.
 
 (* Every returned GetBlock obeys the reply-shape specification (or reports shutdown);
    GetBlockRange returns nil, "not found" or shutdown. *)
-Theorem C23_single_spec : forall prog script ls s p g r,
-  run true (init prog script) ls = Some s ->
+Theorem C23_single_spec : forall c prog script ls s p g r,
+  run true (init c prog script) ls = Some s ->
   In (GetBlock p, g, r) (rets s) -> r = RErr EShutdown \/ r = spec_single p g.
 Proof.
-  intros prog script ls s p g r HR HIn.
-  destruct (inv_run ls _ _ (inv_init prog script) HR) as (_ & _ & (HF & _) & _).
+  intros c prog script ls s p g r HR HIn.
+  destruct (inv_run ls _ _ (inv_init c prog script) HR) as (_ & _ & (HF & _) & _).
   rewrite Forall_forall in HF. exact (HF _ HIn).
 Qed.
 (* ... and the specification makes every wrong batch shape an error *)
@@ -50,14 +50,14 @@ Qed.
    outstanding or still to be made, and every run is finite: every maximal run ends
    with all calls returned.  For all programs (GetBlock and GetBlockRange mixed), all
    server scripts of any length and shape, all schedules, with or without timeouts. *)
-Theorem C23_single_total : forall prog script ls s,
-  run true (init prog script) ls = Some s ->
+Theorem C23_single_total : forall c prog script ls s,
+  run true (init c prog script) ls = Some s ->
   (pending s = true -> exists l s', step true s l = Some s')
   /\ length ls <= 10 * length prog + 3 * length script + 2
   /\ ((forall l, step true s l = None) -> pc s = CIdle /\ todo s = [] /\ length (rets s) = length prog).
 Proof.
-  intros prog script ls s HR.
-  destruct (inv_run ls _ _ (inv_init prog script) HR) as (HC & _).
+  intros c prog script ls s HR.
+  destruct (inv_run ls _ _ (inv_init c prog script) HR) as (HC & _).
   assert (P : pending s = true -> exists l s', step true s l = Some s') by (apply progress; exact HC).
   split; [exact P|]. split.
   - pose proof (run_bound true ls _ _ HR) as B. unfold mu at 2 in B. cbn in B. lia.
@@ -73,55 +73,81 @@ Print Assumptions C23_single_total.
    tree) the callback log since the last acquireBusy is the image, in order, of the
    messages accepted since then: one BlockFunc per decodable block, BatchDoneFunc for
    BatchDone, nothing else; no callback at all in GetBlock mode. *)
-Theorem C23_range_log : forall fx prog script ls s,
-  run fx (init prog script) ls = Some s ->
-  cblog s ++ pendingcb (hp s) = cbbase s ++ (if usecb s then cbs_of (got s) else []).
+Theorem C23_range_log : forall fx c prog script ls s,
+  run fx (init c prog script) ls = Some s ->
+  cblog s ++ pendingcb (hp s) = cbbase s ++ (if usecb s then cbs_of (cfg s) (got s) else []).
 Proof.
-  intros fx prog script ls s HR.
+  intros fx c prog script ls s HR.
   assert (G : ctl_ok s = true /\ KInv s).
-  { apply (run_inv (P := fun s => ctl_ok s = true /\ KInv s) fx) with (ls := ls) (s := init prog script); auto.
+  { apply (run_inv (P := fun s => ctl_ok s = true /\ KInv s) fx) with (ls := ls) (s := init c prog script); auto.
     - intros s0 l s1 [A B] Hs. split; [eapply ctl_step|eapply kinv_step]; eauto.
     - split; reflexivity. }
   exact (proj2 G).
 Qed.
 
-Theorem C23_range : forall fx prog script ls s bs,
-  run fx (init prog script) ls = Some s ->
+(* the configuration never changes *)
+Lemma cfg_const : forall fx ls s s', run fx s ls = Some s' -> cfg s' = cfg s.
+Proof.
+  intros fx. induction ls as [|l r IH]; intros s s' HR; cbn in HR.
+  - injection HR as <-. reflexivity.
+  - destruct (step fx s l) as [s1|] eqn:E; [|discriminate]. rewrite (IH _ _ HR).
+    clear HR IH. destruct s as [c0 todo0 pc0 hp0 srv0 pst0 busy0 usecb0 watch0 stopped0 wire0 cblog0 rets0 got0 cbbase0].
+    destruct l; cbn in E;
+      repeat match type of E with
+      | match ?x with _ => _ end = Some _ => destruct x eqn:?; try discriminate E
+      | (if ?x then _ else _) = Some _ => destruct x eqn:?; try discriminate E
+      end; try (injection E as <-); try reflexivity.
+    all: unfold deliver, die, upd, set_busy, set_stopped, set_pst, add_cb, take; cbn;
+      repeat match goal with |- context[if ?b then _ else _] => destruct b end;
+      repeat match goal with |- context[match ?x with _ => _ end] => destruct x end; reflexivity.
+Qed.
+
+(* C23_range, for every configuration with a block callback (BlockFunc and/or BlockRawFunc):
+   one block callback per block in the order served, then the BatchDone callback exactly when
+   BatchDoneFunc is configured (absent = no log entry; busy is released all the same, see
+   C23_range_release, which holds for every configuration). *)
+Theorem C23_range : forall fx c prog script ls s bs,
+  run fx (init c prog script) ls = Some s ->
+  cfg_block c || cfg_raw c = true ->
   usecb s = true ->
   got s = StartBatch :: map (fun b => Block (Some b)) bs ++ [BatchDone] ->
   hp s = HIdle ->
-  cblog s = cbbase s ++ map CbBlock bs ++ [CbDone].
+  cblog s = cbbase s ++ map CbBlock bs ++ (if cfg_done c then [CbDone] else []).
 Proof.
-  intros fx prog script ls s bs HR HU HG HH.
-  pose proof (C23_range_log _ _ _ _ _ HR) as K. rewrite HU, HG, HH in K. cbn [pendingcb] in K.
+  intros fx c prog script ls s bs HR HB HU HG HH.
+  pose proof (C23_range_log _ _ _ _ _ _ HR) as K. rewrite HU, HG, HH in K. cbn [pendingcb] in K.
   rewrite app_nil_r in K. rewrite K. f_equal.
+  rewrite (cfg_const _ _ _ _ HR). cbn [cfg init].
   change (StartBatch :: ?x) with ([StartBatch] ++ x). rewrite !cbs_of_app. cbn.
-  f_equal. clear. induction bs as [|b r IH]; [reflexivity|]. cbn. f_equal. exact IH.
+  f_equal; [|rewrite app_nil_r; reflexivity].
+  clear - HB. induction bs as [|b r IH]; [reflexivity|]. cbn. rewrite HB. cbn. f_equal. exact IH.
 Qed.
 Print Assumptions C23_range.
 
 (* ... then the call sequence completes: once the batch is over (Idle, handler idle,
    not stopped) nobody outside a call holds busy, so the next call can start *)
-Theorem C23_range_release : forall fx prog script ls s,
-  run fx (init prog script) ls = Some s ->
+Theorem C23_range_release : forall fx cf prog script ls s,
+  run fx (init cf prog script) ls = Some s ->
   hp s = HIdle -> pst s = PIdle -> stopped s = false ->
   (pc s = CIdle \/ exists c, pc s = CLock c) -> busy s = false.
 Proof.
-  intros fx prog script ls s HR HH HP HS HC.
-  pose proof (ctl_run fx ls _ _ (ctl_init prog script) HR) as C.
+  intros fx cf prog script ls s HR HH HP HS HC.
+  pose proof (ctl_run fx ls _ _ (ctl_init cf prog script) HR) as C.
   unfold ctl_ok, outside_ok in C. rewrite HH, HP, HS in C.
   destruct (busy s); [|reflexivity].
   destruct HC as [E|[c E]]; rewrite E in C; cbn in C; rewrite ?andb_false_r in C; discriminate.
 Qed.
 
 (* ---- the pinned tree (fx = false) ---- *)
+Definition call_all : config := {| cfg_block := true; cfg_raw := false; cfg_done := true |}.
+Definition no_done : config := {| cfg_block := true; cfg_raw := false; cfg_done := false |}.
 Definition p0 : point := {| pslot := 12345; phash := hx "00"%string |}.
 Definition bA : blk := {| bslot := 159835207; bhash := hx "27807a70"%string |}.
 Definition bB : blk := {| bslot := 76204984; bhash := hx "db19fcfa"%string |}.
 
 (* GetBlock returns a block that was not asked for *)
 Theorem C23_single_refuted : exists ls s,
-  run false (init [GetBlock p0] [StartBatch; Block (Some bA); BatchDone]) ls = Some s
+  run false (init call_all [GetBlock p0] [StartBatch; Block (Some bA); BatchDone]) ls = Some s
   /\ In (GetBlock p0, [StartBatch; Block (Some bA); BatchDone], RBlock bA) (rets s)
   /\ matches p0 bA = false.
 Proof.
@@ -160,7 +186,7 @@ Qed.
    batchDoneChan, the protocol is Idle (no timer) - a reachable state with a call
    outstanding in which NO label is enabled *)
 Theorem C23_single_total_refuted_nobatch : exists ls s,
-  run false (init [GetBlock p0] [StartBatch; BatchDone]) ls = Some s
+  run false (init call_all [GetBlock p0] [StartBatch; BatchDone]) ls = Some s
   /\ pc s = CWaitBlock p0 /\ hp s = HDoneChan /\ forall l, step false s l = None.
 Proof.
   exists [LCall (GetBlock p0); LAcquire; LWire (GetBlock p0); LDeliver; LRvStart; LDeliver].
@@ -171,7 +197,7 @@ Qed.
 (* two blocks: the handler blocks on the second blockChan send; even the Streaming
    timeout does not help because doneChan cannot close while recvLoop sits in the handler *)
 Theorem C23_single_total_refuted_twoblocks : exists ls s,
-  run false (init [GetBlock p0] [StartBatch; Block (Some bA); Block (Some bB); BatchDone]) ls = Some s
+  run false (init call_all [GetBlock p0] [StartBatch; Block (Some bA); Block (Some bB); BatchDone]) ls = Some s
   /\ pc s = CWaitDone p0 bA false /\ hp s = HBlockChan bB /\ stopped s = true /\ forall l, step false s l = None.
 Proof.
   exists [LCall (GetBlock p0); LAcquire; LWire (GetBlock p0); LDeliver; LRvStart; LDeliver; LRvBlock; LDeliver; LFail].
@@ -181,7 +207,7 @@ Qed.
 
 (* non-vacuity: a range of three blocks followed by a GetBlock, run by the canonical scheduler *)
 Example C23_nonvacuous :
-  let s := settle true 200 (init [GetRange p0 p0; GetBlock {| pslot := 159835207; phash := hx "27807a70"%string |}]
+  let s := settle true 200 (init call_all [GetRange p0 p0; GetBlock {| pslot := 159835207; phash := hx "27807a70"%string |}]
              [StartBatch; Block (Some bA); Block (Some bB); Block (Some bA); BatchDone;
               StartBatch; Block (Some bA); BatchDone]) in
   (* the observable labels still have to be fired by hand: none enabled initially *)
@@ -189,7 +215,7 @@ Example C23_nonvacuous :
 Proof. vm_compute. reflexivity. Qed.
 
 Example C23_full_run : exists s,
-  replay (init [GetRange p0 p0; GetBlock {| pslot := 159835207; phash := hx "27807a70"%string |}]
+  replay (init call_all [GetRange p0 p0; GetBlock {| pslot := 159835207; phash := hx "27807a70"%string |}]
              [StartBatch; Block (Some bA); Block (Some bB); BatchDone; StartBatch; Block (Some bA); BatchDone]) 0
     [LCall (GetRange p0 p0); LWire (GetRange p0 p0); LCbBlock bA; LRet (GetRange p0 p0) ROk; LCbBlock bB; LCbDone;
      LCall (GetBlock {| pslot := 159835207; phash := hx "27807a70"%string |});
@@ -204,7 +230,7 @@ Proof. eexists. split; [vm_compute; reflexivity|]. repeat split. Qed.
    log of sent requests (happens-before, not log order). *)
 Example C23_late_wire_observation :
   let p1 : point := {| pslot := 7; phash := hx "01"%string |} in
-  check_case {| c_prog := [GetRange p0 p0; GetRange p1 p1; GetBlock p0];
+  check_case {| c_cfg := call_all; c_prog := [GetRange p0 p0; GetRange p1 p1; GetBlock p0];
                 c_script := [StartBatch; BatchDone; BatchDone; StartBatch];
                 c_obs := [LCall (GetRange p0 p0); LWire (GetRange p0 p0); LRet (GetRange p0 p0) ROk;
                           LCall (GetRange p1 p1); LCbDone; LRet (GetRange p1 p1) (RErr EShutdown);
@@ -284,7 +310,7 @@ Print Assumptions C23_multi_mutex.
    none in GetBlock mode.  Callbacks of one call never mix with another call's. *)
 Theorem C23_multi_range_log : forall progs script ls m,
   mrun true (minit progs script) ls = Some m ->
-  cblog (sh m) ++ pendingcb (hp (sh m)) = cbbase (sh m) ++ (if usecb (sh m) then cbs_of (got (sh m)) else []).
+  cblog (sh m) ++ pendingcb (hp (sh m)) = cbbase (sh m) ++ (if usecb (sh m) then cbs_of (cfg (sh m)) (got (sh m)) else []).
 Proof.
   intros progs script ls m HR. destruct (minv_run ls _ _ (minv_init progs script) HR) as (_ & KI & _). exact KI.
 Qed.
@@ -351,3 +377,15 @@ Example C23_multi_history_foreign :
                  mc_order := [1; 0];
                  mc_obs := [OCall 0 (GetBlock pA); OCall 1 (GetBlock pB); OWire (GetBlock pB); ORet 0 (GetBlock pA) (RBlock bB)] |} = false.
 Proof. vm_compute. reflexivity. Qed.
+
+(* BatchDoneFunc absent: the range delivers its blocks, logs no BatchDone callback, releases
+   busy, and the follow-up GetBlock on the same client completes *)
+Example C23_no_batchdone_callback : exists s,
+  replay (init no_done [GetRange p0 p0; GetBlock {| pslot := 159835207; phash := hx "27807a70"%string |}]
+             [StartBatch; Block (Some bA); Block (Some bB); BatchDone; StartBatch; Block (Some bA); BatchDone]) 0
+    [LCall (GetRange p0 p0); LWire (GetRange p0 p0); LRet (GetRange p0 p0) ROk; LCbBlock bA; LCbBlock bB;
+     LCall (GetBlock {| pslot := 159835207; phash := hx "27807a70"%string |});
+     LWire (GetBlock {| pslot := 159835207; phash := hx "27807a70"%string |});
+     LRet (GetBlock {| pslot := 159835207; phash := hx "27807a70"%string |}) (RBlock bA)] = Some s
+  /\ cblog s = [CbBlock bA; CbBlock bB] /\ pending s = false /\ busy s = false.
+Proof. eexists. split; [vm_compute; reflexivity|]. repeat split. Qed.
